@@ -174,6 +174,9 @@ func (c *dq) apply(o MidOp) effect {
 		for c.d.Len() > 0 {
 			c.d.PopFront()
 		}
+		if o.B%2 == 0 {
+			c.d.Shrink(0) // (an emptied deque may give its buffer back; its history it may not forget)
+		}
 		for pushes := 0; pushes < 300; pushes++ {
 			_, _, _, g := c.d.VerifState()
 			if (g == c.genAtIter && pushes > 0) || (g > c.genAtIter && pushes > o.A%4) {
@@ -186,6 +189,27 @@ func (c *dq) apply(o MidOp) effect {
 		c.d.Grow(o.A)
 	case "Shrink":
 		c.d.Shrink(o.A % 4)
+	case "Rejected":
+		// calls that are documented to panic and to leave the deque as it was: nothing has been modified
+		n := c.d.Len()
+		vk.Catch(func() { c.d.Set(n+o.A%3, c.fresh()) })
+		vk.Catch(func() { c.d.Set(-1-o.A%3, c.fresh()) })
+		vk.Catch(func() { c.d.Item(n) })
+		vk.Catch(func() { c.d.Shrink(-1 - o.A) })
+		if n == 0 {
+			vk.Catch(func() { c.d.PopFront() })
+			vk.Catch(func() { c.d.PopBack() })
+			vk.Catch(func() { c.d.Front() })
+			vk.Catch(func() { c.d.Back() })
+		}
+		return none
+	case "Reads":
+		if n := c.d.Len(); n > 0 {
+			c.d.Front()
+			c.d.Back()
+			c.d.Item(o.A % n)
+		}
+		return none
 	}
 	if capNow, _, _, _ := c.d.VerifState(); capNow != capBefore {
 		return touched
@@ -255,6 +279,17 @@ func (c *hp) apply(o MidOp) effect {
 	case "Shrink":
 		c.h.Shrink(o.A % 4)
 		return touched
+	case "Rejected":
+		if c.h.Len() == 0 {
+			vk.Catch(func() { c.h.Pop() })
+			vk.Catch(func() { c.h.Peek() })
+		}
+		return none
+	case "Reads": // read-only calls leave an iteration in progress alone
+		if c.h.Len() > 0 {
+			c.h.Peek()
+		}
+		return none
 	case "Churn": // exactly 256 or 65536 pushes and pops (see the deque's Churn)
 		target := []int{256, 65536}[o.A%2]
 		for i := 0; i < target/2; i++ {
@@ -344,6 +379,21 @@ func (c *pq) apply(o MidOp) effect {
 	case "RemoveAbsent":
 		c.q.Remove(-5 - o.A)
 		return none
+	case "Rejected":
+		if n == 0 {
+			vk.Catch(func() { c.q.Pop() })
+			vk.Catch(func() { c.q.Peek() })
+		}
+		vk.Catch(func() { c.q.Priority(-5 - o.A) })
+		return none
+	case "Reads":
+		c.q.Contains(-5 - o.A)
+		if k, ok := pickKey(); ok {
+			c.q.Peek()
+			c.q.Contains(k)
+			c.q.Priority(k)
+		}
+		return none
 	case "Pop":
 		if n == 0 {
 			return none
@@ -366,9 +416,9 @@ func (c *pq) apply(o MidOp) effect {
 
 // ---------------------------------------------------------------- generator
 
-var dequeMid = []string{"PushFront", "PushBack", "PopFront", "PopBack", "Set", "Grow", "Shrink", "Grow", "Shrink", "Set", "DrainRefill", "Churn"}
-var heapMid = []string{"Push", "Pop", "Grow", "Shrink", "Push", "Pop", "Churn"}
-var queueMid = []string{"UpdateLower", "UpdateHigher", "UpdateEqual", "UpdateLower", "UpdateHigher", "UpdateNew", "Remove", "RemoveAbsent", "Pop", "Grow", "Churn"}
+var dequeMid = []string{"PushFront", "PushBack", "PopFront", "PopBack", "Set", "Grow", "Shrink", "Grow", "Shrink", "Set", "DrainRefill", "Churn", "Rejected", "Reads"}
+var heapMid = []string{"Push", "Pop", "Grow", "Shrink", "Push", "Pop", "Churn", "Rejected", "Reads", "Reads"}
+var queueMid = []string{"UpdateLower", "UpdateHigher", "UpdateEqual", "UpdateLower", "UpdateHigher", "UpdateNew", "Remove", "RemoveAbsent", "Pop", "Grow", "Churn", "Rejected", "Reads", "Reads"}
 var posRel = []string{"root", "last", "inner", "leaf", "any"}
 
 func genMid(t *rapid.T, kind string) MidOp {
